@@ -33,6 +33,14 @@ import (
 
 var caPEM = []byte("-----BEGIN CERTIFICATE-----\nQ0EgY2VydGlmaWNhdGUgb2YgdGhlIGNvbmZpZ3VyZWQgYXV0aG9yaXR5\n-----END CERTIFICATE-----\n")
 
+// the server certificate file: opaque bytes, a leaf certificate, or a full chain (the leaf followed by
+// the certificate of an issuing authority that is NOT the configured client authority)
+var serverCerts = [][]byte{
+	[]byte("cert"),
+	[]byte("-----BEGIN CERTIFICATE-----\nTEVBRjpzaWduZXItdGVzdDAx\n-----END CERTIFICATE-----\n"),
+	[]byte("-----BEGIN CERTIFICATE-----\nTEVBRjpzaWduZXItdGVzdDAx\n-----END CERTIFICATE-----\n-----BEGIN CERTIFICATE-----\nQ0E6Y29ycG9yYXRlLWlzc3VpbmctYXV0aG9yaXR5\n-----END CERTIFICATE-----\n"),
+}
+
 type nopProcess struct{}
 
 func (nopProcess) OnPrepare(ctx context.Context, sender uint64, account string, passphrase []byte, threshold uint32, participants []*core.Endpoint) error {
@@ -75,7 +83,7 @@ func ServerConfiguration() {
 	params := []grpcapi.Parameter{
 		grpcapi.WithSigner(in.Signer), grpcapi.WithLister(ls), grpcapi.WithProcess(nopProcess{}), grpcapi.WithWalletManager(wm),
 		grpcapi.WithAccountManager(am), grpcapi.WithPeers(peers), grpcapi.WithName(name), grpcapi.WithID(1),
-		grpcapi.WithListenAddress("0.0.0.0:8881"), grpcapi.WithServerCert([]byte("cert")), grpcapi.WithServerKey([]byte("key")),
+		grpcapi.WithListenAddress("0.0.0.0:8881"), grpcapi.WithServerCert(serverCerts[vsym.Choose("server-certificate-file", len(serverCerts))]), grpcapi.WithServerKey([]byte("key")),
 	}
 	if withCA {
 		params = append(params, grpcapi.WithCACert(caPEM))
